@@ -1195,6 +1195,7 @@ class Unit:
         body_code_ = re.sub(r'//[^\n]*|/\*.*?\*/|"(?:\\.|[^"\\])*"', " ", src[it["body"][0]:it["body"][1]].decode(), flags=re.S) if it["body"] else ""
         calls_now = sorted(set(re.findall(r"(?<![\w!])([A-Za-z_]\w*)\s*(?:::\s*<[^>()]*>\s*)?\(", body_code_))
                            - {"if", "while", "match", "for", "return", "loop", "Some", "Ok", "Err", "None", "Self", "self"}) if it["body"] else []
+        calls_now = [c_ for c_ in calls_now if not c_[0].isupper()]      # tuple structs / enum variants are constructors, not library calls
         key_ = f"{relfile}::{path}"
         self.calls_seen = getattr(self, "calls_seen", {})
         self.calls_seen[key_] = calls_now
